@@ -194,7 +194,7 @@ func (l *listener) handle(conn net.Conn) {
 	l.logger.Debug("connection stats",
 		zap.String("remote", cx.RemoteAddr().String()),
 		zap.Uint64("read", cx.bytesRead),
-		zap.Uint64("written", cx.bytesWritten),
+		zap.Uint64("written", atomic.LoadUint64(&cx.bytesWritten)),
 		zap.Duration("duration", duration),
 	)
 }
